@@ -104,6 +104,11 @@ fn text(r: &mut Rng, out: &mut Vec<u8>, n: &mut usize, entities: bool) {
         }
         return;
     }
+    if r.chance(1, 9) {
+        // whitespace-only character data is character data too (the default reader does not trim)
+        out.extend_from_slice([&b" "[..], b"\n  ", b"\t"][r.below(3)]);
+        return;
+    }
     match r.below(4) {
         0 => out.extend_from_slice(format!("<![CDATA[c{:03}]]>", n).as_bytes()),
         1 => out.extend_from_slice(format!("t{:03} &amp; more", n).as_bytes()),
@@ -219,8 +224,10 @@ pub fn document(r: &mut Rng, g: &GenCfg, root: &str, max_elems: usize) -> Vec<u8
 
 /// a document without any element
 pub fn elementless(r: &mut Rng) -> Vec<u8> {
-    match r.below(5) {
+    match r.below(7) {
         0 => Vec::new(),
+        5 => b"just some text, no markup at all".to_vec(),
+        6 => b"<?xml version=\"1.0\"?>\n<!DOCTYPE r [<!ENTITY e \"v\">]>\n<?pi x?>\n".to_vec(),
         1 => b"<!-- only a comment -->".to_vec(),
         2 => b"<?xml version=\"1.0\"?>".to_vec(),
         3 => b"\n  \n".to_vec(),
